@@ -37,6 +37,9 @@ def plan(tier, seed):
         specs.append({"stratum": "list-swap", "n": 700 if q else 6000, "k": k, "clean": True})
     for k in range(2 if q else 8):
         specs.append({"stratum": "xml-attribute-permutations", "n": 90 if q else 2000, "k": k, "clean": True})
+    for k in range(2 if q else 8):
+        # size is a dimension too: a canonical order applied only to small mappings passes every stratum above
+        specs.append({"stratum": "wide-mappings-with-ties", "n": 10 if q else 60, "k": k, "clean": True})
     if not q:
         for k in range(8):
             specs.append({"stratum": "all-24-permutations", "n": 250, "k": k, "clean": True})
@@ -88,6 +91,28 @@ def gen_cases(spec, ctx):
             for ds in gen.DS:
                 yield {"family": "json", "a": a, "b": b, "ds": ds, "le": r.choice(gen.LE), "seed": r.randrange(1 << 30),
                        "all24": st == "all-24-permutations"}
+        return
+    if st == "wide-mappings-with-ties":
+        for _ in range(spec["n"]):
+            width = r.choice((33, 49, 50, 65, 70, 100, 129, 140))
+            shared = {"s%03d" % i: r.choice((0, 1, "v", None)) for i in range(width)}
+            v = r.choice((7, "x", [1]))
+            ka = ["%s%s" % (c, "x") for c in r.sample("abcdefgh", r.randint(2, 3))]
+            kb = ["%s%s" % (c, "x") for c in r.sample("mnopqrst", r.randint(2, 3))]
+            a = dict(shared)
+            b = dict(shared)
+            for k_ in ka:
+                a[k_] = v                 # unshared keys at equal distance from each other, equal values: ties
+            for k_ in kb:
+                b[k_] = v
+            ai, bi = list(a.items()), list(b.items())
+            r.shuffle(ai)
+            r.shuffle(bi)
+            a, b = dict(ai), dict(bi)
+            if r.random() < 0.3:
+                a, b = {"outer": a, "n": 1}, {"outer": b, "n": 2}
+            ctx.count("wide_mappings_above_%d_keys" % (64 if width > 64 else 48 if width > 48 else 32))
+            yield {"family": "json", "a": a, "b": b, "ds": "auto", "le": "on", "seed": r.randrange(1 << 30)}
         return
     if st == "xml-attribute-permutations":
         # XML attributes are mappings too: their order in the file must not matter
